@@ -442,6 +442,22 @@ func registerStdIntrinsics(in map[string]Intrinsic) {
 		w.storePtr(g, PtrV{O: p.O, Path: appendPath(p.Path, 0)}, a[1])
 		return nil, ctlNext
 	}
+	in["(*strings.Builder).copyCheck"] = noop
+	in["slices.overlaps"] = func(w *Worker, g *G, fr *Frame, fn *ssa.Function, a []Value) (Value, ctl) {
+		x, y := a[0].(SliceV), a[1].(SliceV)
+		if x.O == nil || y.O == nil || x.O != y.O || x.Len == 0 || y.Len == 0 {
+			return TFalse, ctlNext
+		}
+		if len(x.Path) != len(y.Path) {
+			return TFalse, ctlNext
+		}
+		for i := range x.Path {
+			if x.Path[i] != y.Path[i] {
+				return TFalse, ctlNext
+			}
+		}
+		return BoolConst(x.Off < y.Off+y.Len && y.Off < x.Off+x.Len), ctlNext
+	}
 	in["runtime.KeepAlive"] = noop
 	in["runtime.GC"] = noop
 	in["runtime.Gosched"] = noop
